@@ -10,7 +10,9 @@ TIE = ("hand-written pointer-store model (FcpptModel/Model/C11.lean, one definit
 RULE = ("history batches: `reset` + up to 30 (quick) / 50 (thorough) operations over <= 3 live lists / signals and <= 8 live "
         "elements / connections; after every operation both sides print the full observable state. An op is non-trivial if "
         "its dump shows at least one linked element / invoked callback; distinct = distinct (op, resulting state) pairs. "
-        "small-scope batch: every valid sequence of <= 3 operations after each of a fixed set of start scenarios (exhaustive).")
+        "small-scope batches: every valid sequence of <= 3 operations (thorough: <= 4 for six of them) after each of nine start "
+        "scenarios, fresh ids canonical (exhaustive within that scope). Operation kinds generated: L E d u M A LM LA LD "
+        "(lists), SN PN SC PC SX SM SA SD call (signals); the weights are in the batch notes.")
 ASSUMPTIONS = [
     "the caller respects object lifetimes (constructors on fresh storage, members on live objects) - generator and driver enforce it",
     "element moves (base(base&&), base::operator=(base&&)) are only issued with a source that is linked to something; the "
@@ -243,9 +245,11 @@ def scenarios():
     ]
 
 
-def enum_small(depth, max_lists=3, max_elems=4):
+def enum_small(depth, max_lists=3, max_elems=4, only=None):
     out = []
-    for pre in scenarios():
+    for idx, pre in enumerate(scenarios()):
+        if only is not None and idx not in only:
+            continue
         st0 = Rings()
         for o in pre:
             st0.apply(o)
@@ -264,6 +268,9 @@ def enum_small(depth, max_lists=3, max_elems=4):
 
         rec(st0, [], depth)
     return out
+
+
+DEEP_SCENARIOS = [0, 1, 2, 3, 5, 6]     # depth 4 in the thorough tier (the others would be > 4M lines each)
 
 
 def maximal_only(hists):
@@ -290,12 +297,17 @@ def batches(rng, tier):
     small = maximal_only(enum_small(depth))
     yield Batch("lists-small-scope", flat(small), kind="history", exhaustive=True,
                 note=f"every valid sequence of <= {depth} operations (canonical fresh ids) after each of {len(scenarios())} start scenarios; {len(small)} maximal histories")
+    if thorough:
+        for idx in DEEP_SCENARIOS:
+            deep = maximal_only(enum_small(4, only=[idx]))
+            yield Batch(f"lists-small-scope-depth4-s{idx}", flat(deep), kind="history", exhaustive=True,
+                        note=f"every valid sequence of <= 4 operations after start scenario {idx} ({' ; '.join(scenarios()[idx])}); {len(deep)} maximal histories")
     r = rng.fork("lists")
-    n, ln = (2500, 50) if thorough else (500, 30)
+    n, ln = (15000, 50) if thorough else (2000, 30)
     hs = [gen_list_history(r, r.range(ln // 2, ln)) for _ in range(n)]
     yield Batch("lists-random", flat(hs), kind="history", note=f"{n} random histories of length {ln // 2}..{ln}; kinds weighted {LIST_WEIGHTS}")
     r = rng.fork("signals")
-    n, ln = (2000, 50) if thorough else (400, 30)
+    n, ln = (10000, 50) if thorough else (1500, 30)
     hs = [gen_sig_history(r, r.range(ln // 2, ln)) for _ in range(n)]
     yield Batch("signals-random", flat(hs), kind="history", note=f"{n} random histories of length {ln // 2}..{ln}; kinds weighted {SIG_WEIGHTS}; both signal::base and unregister::base")
 
